@@ -213,10 +213,24 @@ pub fn run(outdir: &Path, tier: &str, seed: u64, shards: usize, replay: Option<S
         let pf = coq::list(&probe_keys, |k| format!("({}, {})", coq::s(k), coq::b(attributes::ident_exists(&ast, k).is_ok())));
         *dist.entry(format!("{} items{}", items.len(), if *trail { ", trailing comma" } else { "" })).or_default() += 1;
         cases.push(Case {
-            coq: format!("(mkCase {} {} {} {} {} {})", coq::list(items, |i| i.to_coq()), coq::b(*trail), obs, pa, pl, pf),
+            coq: format!("(mkCase {} {} {} {} {} {} [])", coq::list(items, |i| i.to_coq()), coq::b(*trail), obs, pa, pl, pf),
             desc: json!({"items": items, "trail": trail, "style": style, "spacing": spacing, "source": src, "observed_options": obs}),
             key: src.clone(),
             nontrivial: items.len() >= 2,
+        });
+    }
+    // real derives: which files does a path in the attribute designate?
+    if arrangements.len() > 1 {
+        let probes = path_probes();
+        for (how, got) in &probes {
+            *dist.entry(format!("path probe/{}/{}", how, got)).or_default() += 1;
+        }
+        let empty = "(mkDopts None None None None false false None None None None)";
+        cases.push(Case {
+            coq: format!("(mkCase [] false {} [] [] [] {})", empty, coq::list(&probes, |(h, g)| format!("({}, {})", coq::s(h), coq::s(g)))),
+            desc: json!({"kind": "path probes", "items": [], "trail": false, "style": 0, "spacing": 0, "probes": probes}),
+            key: "path probes".into(),
+            nontrivial: true,
         });
     }
     let samples: Vec<_> = cases.iter().step_by((cases.len() / 6).max(1)).map(|c| c.desc.clone()).collect();
@@ -231,4 +245,64 @@ pub fn run(outdir: &Path, tier: &str, seed: u64, shards: usize, replay: Option<S
             "samples": samples,
         }),
     );
+}
+
+
+/// A workspace whose ROOT holds decoy `graphql/schema.graphql` / `graphql/query.graphql` (cargo runs
+/// rustc from the workspace root) and whose member `consumer/` holds the real ones under the same
+/// relative paths.  Each derive is followed by code that only compiles if the member's files were read.
+fn path_probes() -> Vec<(String, String)> {
+    use std::process::{Command, Stdio};
+    let repo = std::env::var("VERIF_REPO").unwrap_or_else(|_| "/repo".into());
+    let verif = std::env::var("VERIF_DIR").unwrap_or_else(|_| "/verif".into());
+    let ws = crate::runner::scratch_dir().join("c18-ws");
+    let _ = std::fs::remove_dir_all(&ws);
+    let w = |rel: &str, text: &str| {
+        let p = ws.join(rel);
+        std::fs::create_dir_all(p.parent().unwrap()).unwrap();
+        std::fs::write(p, text).unwrap();
+    };
+    w("Cargo.toml", "[workspace]\nmembers = [\"consumer\"]\nresolver = \"2\"\n");
+    let _ = std::fs::copy(format!("{}/Cargo.lock", repo), ws.join("Cargo.lock"));
+    // decoys at the workspace root, and one level above the member under another name
+    w("graphql/schema.graphql", "type Query { rootField: Int }\n");
+    w("graphql/query.graphql", "query Q { rootField }\n");
+    w("shared/schema.graphql", "type Query { memberField: Int }\n");
+    w("consumer/graphql/schema.graphql", "type Query { memberField: Int }\n");
+    w("consumer/graphql/query.graphql", "query Q { memberField }\n");
+    w("consumer/Cargo.toml", &format!("[package]\nname = \"consumer\"\nversion = \"0.1.0\"\nedition = \"2021\"\n\n[dependencies]\ngraphql_client = {{ path = \"{}/graphql_client\" }}\n", repo));
+    let variants: Vec<(&str, &str, &str)> = vec![
+        ("same relative path exists under the workspace root", "graphql/schema.graphql", "graphql/query.graphql"),
+        ("./ prefix", "./graphql/schema.graphql", "./graphql/query.graphql"),
+        ("schema reached through ..", "../shared/schema.graphql", "graphql/query.graphql"),
+    ];
+    let mut out = vec![];
+    for (k, (how, sp, qp)) in variants.iter().enumerate() {
+        let src = format!(
+            "#![allow(warnings)]\nuse graphql_client::GraphQLQuery;\n#[derive(GraphQLQuery)]\n#[graphql(schema_path = {:?}, query_path = {:?})]\npub struct Q;\nfn main() {{ let d = q::ResponseData {{ member_field: Some(1) }}; let _ = d.member_field; }}\n",
+            sp, qp
+        );
+        w("consumer/src/main.rs", &src);
+        let o = Command::new("cargo")
+            .args(["check", "--offline", "--quiet", "-p", "consumer"])
+            .current_dir(&ws)
+            .env("CARGO_TARGET_DIR", std::path::PathBuf::from(&verif).join(".cache").join("derive-target"))
+            .env("CARGO_NET_OFFLINE", "true")
+            .env("RUSTFLAGS", "-Awarnings")
+            .stdout(Stdio::null())
+            .stderr(Stdio::piped())
+            .output();
+        let got = match o {
+            Ok(o) if o.status.success() => "manifest".to_string(),
+            Ok(o) => {
+                let e = String::from_utf8_lossy(&o.stderr).to_string();
+                if e.contains("member_field") || e.contains("root_field") { "files under the compiler's working directory".to_string() } else { format!("error: {}", e.lines().find(|l| l.contains("error")).unwrap_or("").chars().take(120).collect::<String>()) }
+            }
+            Err(e) => format!("error: {}", e),
+        };
+        let _ = k;
+        out.push((how.to_string(), got));
+    }
+    let _ = std::fs::remove_dir_all(&ws);
+    out
 }
